@@ -8,6 +8,10 @@ R01.2 null propagation = strictness: every registry template / typed override / 
       analysed through their own bodies); nvl, isnull, and/or are the declared non-strict set; between is checked as written
       in _between_expr
 R01.3 three-valued logic: the SQL of and/or/xor/not evaluated over {T,F,N} equals the VTL (Kleene) truth tables
+R01.7 dataset-scalar arithmetic: _build_ds_scalar_binary is evaluated (E6) for `/` with the dataset on either side and scalar operands
+      {2, 0, 2.5, -1, NULL, a scalar variable}: the expression applied to each measure is the one the operator registry builds (whose DIV
+      template R01.4 checks) with the operands in the written order, or a raw SQL division whose DIVISOR is a non-zero numeric
+      literal; a raw division by a column or by zero skips the zero-divisor error and yields inf / NULL
 R01.4 division by zero: the DIV template goes through a macro whose zero-divisor branch calls error() with a text that
       the query-error mapper turns into a catalogued RunTimeError
 R01.5 dataset-level if-then-else keeps a datapoint iff the side selected by the condition has it, where a NULL condition
@@ -257,6 +261,9 @@ def run(rep: Report, tier: str) -> None:
             ok = True
     if not ok:
         rep.add(Finding("R01.4", "R01.4/division-by-zero", "src/vtlengine/duckdb_transpiler/Transpiler/operators.py", div[0].line, "registry[DIV]", why))
+    # ---- R01.7 every dataset-scalar division reaches the registry's DIV template (or divides by a non-zero literal) ----
+    rep.rule("R01.7", "dataset-scalar operators: the per-measure expression is the operator registry's (DIV: the zero-checking macro) in both operand orders, or a raw division by a non-zero literal")
+    _ds_scalar_division(P, rep)
     # ---- R01.5 -----------------------------------------------------------------------------------------
     bif = P.func(f"{TRPKG}.SQLTranspiler._build_dataset_if")
     side_of: Dict[str, str] = {}
@@ -356,3 +363,46 @@ def run(rep: Report, tier: str) -> None:
     rep.assumptions = ["DuckDB scalar functions and arithmetic/comparison operators return NULL on a NULL argument; COALESCE/IS NULL/AND/OR/CASE "
                        "follow SQL semantics; error() never returns", "VTL semantics encoded in the checker: null propagation for the listed "
                        "operator classes, Kleene tables for and/or, null-strict xor/not"]
+
+
+def _ds_scalar_division(P: Program, rep: Report) -> None:
+    from sa import structmodel as sm
+    from sa.e6 import Interp, Raised, Unmodelled
+    f = P.func(f"{TRPKG}.SQLTranspiler._build_ds_scalar_binary")
+    M = sm.Model(P)
+    n = 0
+    for ds_on_left in (True, False):
+        for scalar in ("2", "0", "2.5", "-1", "NULL", '"sc_1"'):
+            captured: Dict[str, object] = {}
+
+            def apply_measures(ds_node, expr_fn, *a, **k):
+                captured["expr"] = expr_fn('"M"')
+                return "⟦select⟧"
+            ext = {"self._get_dataset_structure": lambda x: M.ds("DS_1", ["A"], ["M"]), "isinstance": lambda o, t: True, "self.visit": lambda x: scalar,
+                   "self._make_binary_expr": lambda l, r, op, lt=None, rt=None: f"⟦registry {op}⟧({l}, {r})", "self._apply_measures": apply_measures,
+                   "registry.sql": lambda op, *a: f"⟦registry {op}⟧({', '.join(map(str, a))})"}
+            it = Interp(P, externals=ext)
+            try:
+                it.call(f, {"self": sm.MTranspiler(), "ds_node": "DS", "scalar_node": "SC", "op": "/", "ds_on_left": ds_on_left})
+            except (Unmodelled, Raised) as e:
+                raise AnalysisError(f"R01.7: _build_ds_scalar_binary outside the evaluator's language: {e}")
+            expr = str(captured.get("expr"))
+            n += 1
+            want = f'⟦registry /⟧("M", {scalar})' if ds_on_left else f'⟦registry /⟧({scalar}, "M")'
+            rep.instance("R01.7", f"div/{'DS/k' if ds_on_left else 'k/DS'}/{scalar}", sample={"expr": expr})
+            if expr == want:
+                continue
+            m = re.fullmatch(r"\(?\s*(.+?)\s*/\s*(.+?)\s*\)?", expr)
+            ok = False
+            if m and "⟦registry" not in expr:
+                dividend, divisor = m.group(1), m.group(2)
+                right_order = (dividend, divisor) == (('"M"', scalar) if ds_on_left else (scalar, '"M"'))
+                try:
+                    ok = right_order and float(divisor) != 0.0
+                except ValueError:
+                    ok = False
+            if not ok:
+                rep.add(Finding("R01.7", f"R01.7/div/{'DS/k' if ds_on_left else 'k/DS'}/{scalar}", f.module.rel, f.node.lineno, f.qualname,
+                                f"{'DS_1 / ' + scalar if ds_on_left else scalar + ' / DS_1'}: each measure is computed as `{expr}` instead of `{want}` (the registry's zero-checking division): "
+                                f"a divisor that is a column (or 0) no longer raises RunTimeError 2-1-15-6 for a zero value - the datapoint comes back as inf / NULL"))
+    rep.floor("R01.7 dataset-scalar divisions evaluated", n, 12)
